@@ -21,9 +21,32 @@ pub enum ErrKind {
     WouldBlock,
     TimedOut,
     Other,
+    ConnectionReset,
+    ConnectionAborted,
+    BrokenPipe,
+    NotConnected,
+    InvalidData,
+    PermissionDenied,
 }
 
-pub const ERR_KINDS: [ErrKind; 4] = [ErrKind::Interrupted, ErrKind::WouldBlock, ErrKind::TimedOut, ErrKind::Other];
+/// number of error kinds (size of the per-kind counters)
+pub const NK: usize = 10;
+
+/// Every kind a source / sink may fail with.  `UnexpectedEof` and `WriteZero` are deliberately absent: the library
+/// produces those itself, and an environment that returned them as transient errors would make the truncation /
+/// write-zero clauses ambiguous.
+pub const ERR_KINDS: [ErrKind; NK] = [
+    ErrKind::Interrupted,
+    ErrKind::WouldBlock,
+    ErrKind::TimedOut,
+    ErrKind::Other,
+    ErrKind::ConnectionReset,
+    ErrKind::ConnectionAborted,
+    ErrKind::BrokenPipe,
+    ErrKind::NotConnected,
+    ErrKind::InvalidData,
+    ErrKind::PermissionDenied,
+];
 
 impl ErrKind {
     pub fn io(self) -> io::ErrorKind {
@@ -32,16 +55,16 @@ impl ErrKind {
             ErrKind::WouldBlock => io::ErrorKind::WouldBlock,
             ErrKind::TimedOut => io::ErrorKind::TimedOut,
             ErrKind::Other => io::ErrorKind::Other,
+            ErrKind::ConnectionReset => io::ErrorKind::ConnectionReset,
+            ErrKind::ConnectionAborted => io::ErrorKind::ConnectionAborted,
+            ErrKind::BrokenPipe => io::ErrorKind::BrokenPipe,
+            ErrKind::NotConnected => io::ErrorKind::NotConnected,
+            ErrKind::InvalidData => io::ErrorKind::InvalidData,
+            ErrKind::PermissionDenied => io::ErrorKind::PermissionDenied,
         }
     }
     pub fn from_io(k: io::ErrorKind) -> Option<ErrKind> {
-        match k {
-            io::ErrorKind::Interrupted => Some(ErrKind::Interrupted),
-            io::ErrorKind::WouldBlock => Some(ErrKind::WouldBlock),
-            io::ErrorKind::TimedOut => Some(ErrKind::TimedOut),
-            io::ErrorKind::Other => Some(ErrKind::Other),
-            _ => None,
-        }
+        ERR_KINDS.iter().copied().find(|e| e.io() == k)
     }
     pub fn idx(self) -> usize {
         self as usize
@@ -52,6 +75,12 @@ impl ErrKind {
             ErrKind::WouldBlock => "wouldblock",
             ErrKind::TimedOut => "timedout",
             ErrKind::Other => "other",
+            ErrKind::ConnectionReset => "connreset",
+            ErrKind::ConnectionAborted => "connaborted",
+            ErrKind::BrokenPipe => "brokenpipe",
+            ErrKind::NotConnected => "notconnected",
+            ErrKind::InvalidData => "invaliddata",
+            ErrKind::PermissionDenied => "permissiondenied",
         }
     }
     pub fn parse(s: &str) -> Option<ErrKind> {
@@ -128,7 +157,7 @@ pub mod ev {
     pub const XFER_ALL: u8 = 1;
     pub const XFER_SHORT: u8 = 2;
     pub const PENDING: u8 = 3;
-    pub const ERR: u8 = 4; // + kind index
+    pub const ERR: u8 = 32; // + kind index
     pub const EOF: u8 = 9;
     pub const ZERO: u8 = 10;
     pub const CANCEL: u8 = 11;
@@ -214,7 +243,7 @@ pub struct SrcCore {
     pub calls: u64,
     pub call_cap: u64,
     pub cap_hit: bool,
-    pub served_err: [u64; 4],
+    pub served_err: [u64; NK],
     pub eof_served: u64,
     pub wakers_seen: u64,
     /// blocking class only: non-`Interrupted` errors in the lane are served as fatal errors
@@ -222,6 +251,10 @@ pub struct SrcCore {
     pub fatal_served: Option<ErrKind>,
     /// overwrite the part of the caller's buffer that was NOT filled (its content is unspecified by the Read contract)
     pub scribble: bool,
+    /// blocking class only: the source overrides `Read::read_exact` with an all-or-nothing version (like `io::Cursor`,
+    /// `&[u8]` and `VecDeque<u8>` do): on a short stream it consumes what is left, copies NOTHING into the caller's
+    /// buffer and fails with `UnexpectedEof` -- the `Read` contract leaves the buffer content unspecified in that case
+    pub exact_override: bool,
     pub obs: Rc<RefCell<Obs>>,
 }
 
@@ -236,12 +269,13 @@ impl SrcCore {
             calls: 0,
             call_cap,
             cap_hit: false,
-            served_err: [0; 4],
+            served_err: [0; NK],
             eof_served: 0,
             wakers_seen: 0,
             allow_fatal: false,
             fatal_served: None,
             scribble: false,
+            exact_override: false,
             obs,
         }))
     }
@@ -376,6 +410,44 @@ impl io::Read for SimSource {
             None => unreachable!("blocking source never returns Pending"),
         }
     }
+    /// Either the standard library's default algorithm (spelled out, because an override cannot call the default), or --
+    /// with `exact_override` -- an all-or-nothing version that gathers into a scratch buffer through the same lane
+    /// (short reads, EINTR retried) and touches the caller's buffer only on success.
+    fn read_exact(&mut self, buf: &mut [u8]) -> io::Result<()> {
+        let all_or_nothing = self.0.borrow().exact_override;
+        if !all_or_nothing {
+            let mut rest: &mut [u8] = buf;
+            while !rest.is_empty() {
+                match self.read(rest) {
+                    Ok(0) => break,
+                    Ok(n) => rest = &mut rest[n..],
+                    Err(e) if e.kind() == io::ErrorKind::Interrupted => {}
+                    Err(e) => return Err(e),
+                }
+            }
+            return if rest.is_empty() { Ok(()) } else { Err(io::Error::new(io::ErrorKind::UnexpectedEof, "failed to fill whole buffer")) };
+        }
+        self.0.borrow().obs.borrow_mut().fault(fk::read_exact_override);
+        let mut tmp = vec![0u8; buf.len()];
+        let mut got = 0;
+        while got < tmp.len() {
+            match self.read(&mut tmp[got..]) {
+                Ok(0) => {
+                    if self.0.borrow().scribble {
+                        for b in buf.iter_mut() {
+                            *b = 0xDD;
+                        }
+                    }
+                    return Err(io::Error::new(io::ErrorKind::UnexpectedEof, "failed to fill whole buffer"));
+                }
+                Ok(n) => got += n,
+                Err(e) if e.kind() == io::ErrorKind::Interrupted => {}
+                Err(e) => return Err(e),
+            }
+        }
+        buf.copy_from_slice(&tmp);
+        Ok(())
+    }
     /// A device with a native scatter read.
     fn read_vectored(&mut self, bufs: &mut [io::IoSliceMut<'_>]) -> io::Result<usize> {
         let total: usize = bufs.iter().map(|b| b.len()).sum();
@@ -469,7 +541,7 @@ pub struct SinkCore {
     pub flush_calls: u64,
     pub call_cap: u64,
     pub cap_hit: bool,
-    pub served_err: [u64; 4],
+    pub served_err: [u64; NK],
     pub zero_served: u64,
     pub full_served: u64,
     pub empty_offers: u64,
@@ -497,7 +569,7 @@ impl SinkCore {
             flush_calls: 0,
             call_cap,
             cap_hit: false,
-            served_err: [0; 4],
+            served_err: [0; NK],
             zero_served: 0,
             full_served: 0,
             empty_offers: 0,
